@@ -325,7 +325,54 @@ def mutate_tailret(repo, f):
     return 1
 
 
+def mutate_logstmt(repo, f):
+    """a `log::trace!(..)` statement is inserted after every single-line `let` of the function: rules that read "the statement before / after" must not care"""
+    p = os.path.join(repo, f["file"])
+    lines = open(p, encoding="utf-8").read().split("\n")
+    l0, l1 = f["l"] - 1, f["el"]
+    out, n = [], 0
+    for i, ln in enumerate(lines):
+        out.append(ln)
+        m = LET.match(ln) if l0 < i < l1 else None
+        if m and n < 60:
+            out.append(f'{m.group(1)}log::trace!("sweep {n}");')
+            n += 1
+    if n:
+        open(p, "w", encoding="utf-8").write("\n".join(out))
+    return n
+
+
+EQ = re.compile(r"(?P<pre>\(|\bif |\bwhile |&& |\|\| |= |, |return )(?P<a>!?(?:\w+(?:\(\))?\.)*\w+(?:\(\))?) (?P<op>==|!=) (?P<b>(?:\w+::)*\w+(?:\(\))?|'(?:\\.|[^'\\])'|\"[^\"]*\")(?P<post>\)| \{| &&| \|\||;|,)")
+
+
+def mutate_eqswap(repo, f):
+    """`a == b` -> `b == a` (and `!=`) for simple operands: equality is symmetric"""
+    p = os.path.join(repo, f["file"])
+    lines = open(p, encoding="utf-8").read().split("\n")
+    l0, l1 = f["l"] - 1, f["el"]
+    n = 0
+    for i in range(l0, min(l1, len(lines))):
+        ln = lines[i]
+        if ln.lstrip().startswith("//") or ("==" not in ln and "!=" not in ln):
+            continue
+        def sw(m):
+            if m.group("a").startswith("!"):
+                return m.group(0)
+            return f"{m.group('pre')}{m.group('b')} {m.group('op')} {m.group('a')}{m.group('post')}"
+        new = EQ.sub(sw, ln)
+        if new != ln:
+            lines[i] = new
+            n += 1
+    if n:
+        open(p, "w", encoding="utf-8").write("\n".join(lines))
+    return n
+
+
 def mutate(repo, f):
+    if MODE == "logstmt":
+        return mutate_logstmt(repo, f)
+    if MODE == "eqswap":
+        return mutate_eqswap(repo, f)
     if MODE == "tailret":
         return mutate_tailret(repo, f)
     if MODE == "ifnot":
